@@ -279,7 +279,7 @@ def obligations(tier: str):
     kinds = list(range(9))
     us = [0] if q else [0, 1]
     sys_split = {"u": us, "tower": [1, 0]}
-    T1 = 150 if q else 600
+    T1 = 600 if q else 1200  # wall-clock caps, not costs
     obs = [
         Chx("single", h_single, timeout=T1, fix={"n": 16}, split=sys_split),
         Chx("dist_self", h_dist_self, timeout=T1, fix={"n": 16}, split=sys_split),
@@ -293,7 +293,7 @@ def obligations(tier: str):
     # distance law over symbolic pairs of terms over the first n argument terms
     cells = {"ak": kinds, "bgen": [0, 1]}
     if q:
-        obs.append(Chx("dist", h_dist, timeout=200, fix={"u": 0, "tower": 1, "n": 5}, split=cells))
+        obs.append(Chx("dist", h_dist, timeout=900, fix={"u": 0, "tower": 1, "n": 5}, split=cells))  # wall-clock cap; ~90 CPU-s per cell
     else:
         obs.append(Chx("dist", h_dist, timeout=2400, fix={"u": 0, "tower": 1, "n": 8}, split=cells))
         for u, tw in ((0, 0), (1, 1), (1, 0)):
